@@ -163,6 +163,41 @@ func checkKernel(w *load.World, c *core.Collector, f *asmFunc, props []string) {
 			accs[in.args[len(in.args)-1]] = true
 		}
 	}
+	// counters: the count register, or — when the prologue splits the length once into whole blocks
+	// and a remainder (MOVQ n,B; SHRQ $k,B; ANDQ $2^k-1,n) — the block counter with weight 2^k and
+	// the remainder with weight 1: what is left to process is always the weighted sum
+	wts := map[string]int64{cnt: 1}
+	hiOf := map[string]int64{}
+	skip := map[int]bool{}
+	for i, in := range f.ins {
+		if in.op == "MOVQ" && len(in.args) == 2 && in.args[0] == cnt && !strings.Contains(in.args[1], "(") {
+			cp := in.args[1]
+			var shr, and = -1, -1
+			var k, mask int64
+			for j := i + 1; j < len(f.ins) && j < i+6; j++ {
+				jn := f.ins[j]
+				if len(jn.args) != 2 {
+					continue
+				}
+				v, isImm := imm(jn.args[0])
+				if !isImm {
+					continue
+				}
+				switch {
+				case jn.op == "SHRQ" && jn.args[1] == cp:
+					shr, k = j, v
+				case jn.op == "ANDQ" && jn.args[1] == cnt:
+					and, mask = j, v
+				}
+			}
+			if shr >= 0 && and >= 0 && k > 0 && k < 16 && mask == (int64(1)<<uint(k))-1 {
+				wts[cp] = int64(1) << uint(k)
+				hiOf[cnt] = mask
+				skip[i], skip[shr], skip[and] = true, true, true
+			}
+		}
+	}
+	isCounter := func(r string) bool { _, ok := wts[r]; return ok }
 	isJcc := func(op string) bool {
 		switch op {
 		case "JL", "JLT", "JGE", "JLE", "JG", "JGT", "JE", "JEQ", "JZ", "JNE", "JNZ", "JB", "JLO", "JCS", "JAE", "JHS", "JCC", "JA", "JHI", "JBE", "JLS":
@@ -223,8 +258,9 @@ func checkKernel(w *load.World, c *core.Collector, f *asmFunc, props []string) {
 		return a
 	}
 	type bsum struct {
-		dx, dy, dc int64
-		loadsX     map[int64]int64 // byte offset relative to the entry pointer -> width in bytes
+		dx, dy     int64
+		dcs        map[string]int64 // units taken off each counter
+		loadsX     map[int64]int64  // byte offset relative to the entry pointer -> width in bytes
 		loadsY     map[int64]int64
 		dupX, dupY bool
 		bad        string
@@ -232,17 +268,22 @@ func checkKernel(w *load.World, c *core.Collector, f *asmFunc, props []string) {
 		jop    string
 		target int
 		cmpK   int64
+		cmpReg string
 		hasCmp bool
 		ret    bool
 		jmp    bool
 	}
 	sums := make([]bsum, len(blocks))
 	for bi, b := range blocks {
-		sm := bsum{loadsX: map[int64]int64{}, loadsY: map[int64]int64{}, target: -1}
+		sm := bsum{loadsX: map[int64]int64{}, loadsY: map[int64]int64{}, dcs: map[string]int64{}, target: -1}
 		flagsOK := false
+		flagReg := ""
 		var cmpK int64
 		for i := b.start; i <= b.end; i++ {
 			in := f.ins[i]
+			if skip[i] {
+				continue
+			}
 			// memory reads through the two pointers
 			width := regWidth(in.op, in.args)
 			for ai, a := range in.args {
@@ -285,44 +326,41 @@ func checkKernel(w *load.World, c *core.Collector, f *asmFunc, props []string) {
 				if in.op == "SUBQ" {
 					sign = -1
 				}
-				switch dst {
-				case px, py, cnt:
-					if !isImm {
-						sm.bad = fmt.Sprintf("%s %s: not a constant step", in.op, strings.Join(in.args, ", "))
-					}
+				if (dst == px || dst == py || isCounter(dst)) && !isImm {
+					sm.bad = fmt.Sprintf("%s %s: not a constant step", in.op, strings.Join(in.args, ", "))
 				}
-				switch dst {
-				case px:
+				switch {
+				case dst == px:
 					sm.dx += sign * v
-				case py:
+				case dst == py:
 					sm.dy += sign * v
-				case cnt:
-					sm.dc -= sign * v
+				case isCounter(dst):
+					sm.dcs[dst] -= sign * v
 				}
-				flagsOK, cmpK = dst == cnt, 0
+				flagsOK, flagReg, cmpK = isCounter(dst), dst, 0
 			case "INCQ", "DECQ":
 				sign := int64(1)
 				if in.op == "DECQ" {
 					sign = -1
 				}
-				switch dst {
-				case px, py:
+				switch {
+				case dst == px || dst == py:
 					sm.bad = in.op + " on an operand pointer"
-				case cnt:
-					sm.dc -= sign
+				case isCounter(dst):
+					sm.dcs[dst] -= sign
 				}
-				flagsOK, cmpK = dst == cnt, 0
+				flagsOK, flagReg, cmpK = isCounter(dst), dst, 0
 			case "CMPQ":
 				flagsOK = false
-				if in.args[0] == cnt {
+				if isCounter(in.args[0]) {
 					if v, ok := imm(in.args[1]); ok {
-						flagsOK, cmpK = true, v
+						flagsOK, flagReg, cmpK = true, in.args[0], v
 					}
 				}
 			case "TESTQ":
-				flagsOK, cmpK = len(in.args) == 2 && in.args[0] == cnt && in.args[1] == cnt, 0
+				flagsOK, flagReg, cmpK = len(in.args) == 2 && isCounter(in.args[0]) && in.args[1] == in.args[0], in.args[0], 0
 			case "MOVQ", "LEAQ", "XORQ", "ANDQ", "ORQ", "SHLQ", "SHRQ", "NEGQ", "IMULQ":
-				if dst == px || dst == py || dst == cnt {
+				if dst == px || dst == py || isCounter(dst) {
 					// the prologue loads them; later writes are outside the vocabulary
 					if !(in.op == "MOVQ" && strings.Contains(in.args[0], "(FP)")) {
 						sm.bad = fmt.Sprintf("%s changes %s in a way the check does not model", in.op, dst)
@@ -341,7 +379,7 @@ func checkKernel(w *load.World, c *core.Collector, f *asmFunc, props []string) {
 			default:
 				if isJcc(in.op) {
 					sm.jop = in.op
-					sm.hasCmp, sm.cmpK = flagsOK, cmpK
+					sm.hasCmp, sm.cmpK, sm.cmpReg = flagsOK, cmpK, flagReg
 					if t, ok := f.label[in.args[0]]; ok {
 						sm.target = blockAt[t]
 					}
@@ -399,9 +437,22 @@ func checkKernel(w *load.World, c *core.Collector, f *asmFunc, props []string) {
 		}
 		return clamp(taken), clamp(fall), true
 	}
-	entry := make([]ival, len(blocks))
+	var regs []string
+	for r := range wts {
+		regs = append(regs, r)
+	}
+	sort.Strings(regs)
+	type ivals map[string]ival
+	entry := make([]ivals, len(blocks))
 	reached := make([]bool, len(blocks))
-	entry[0], reached[0] = ival{0, inf}, true
+	entry[0], reached[0] = ivals{}, true
+	for _, r := range regs {
+		hi := inf
+		if h, ok := hiOf[r]; ok {
+			hi = h
+		}
+		entry[0][r] = ival{0, hi}
+	}
 	var probsAll []string
 	for iter := 0; iter < 64; iter++ {
 		changed := false
@@ -410,27 +461,50 @@ func checkKernel(w *load.World, c *core.Collector, f *asmFunc, props []string) {
 				continue
 			}
 			sm := sums[bi]
-			cur := entry[bi]
-			out := ival{cur.lo - sm.dc, cur.hi - sm.dc}
-			if cur.hi >= inf {
-				out.hi = inf
+			out := ivals{}
+			for _, r := range regs {
+				cur := entry[bi][r]
+				o := ival{cur.lo - sm.dcs[r], cur.hi - sm.dcs[r]}
+				if cur.hi >= inf {
+					o.hi = inf
+				}
+				if o.lo < 0 {
+					o.lo = 0 // a block that takes more than it may is reported below
+				}
+				out[r] = o
 			}
-			if out.lo < 0 {
-				out.lo = 0 // a block that takes more than it may is reported below
-			}
-			push := func(t int, v ival) {
-				if t < 0 || t >= len(blocks) || v.lo > v.hi {
+			push := func(t int, v ivals) {
+				if t < 0 || t >= len(blocks) {
 					return
+				}
+				for _, r := range regs {
+					if v[r].lo > v[r].hi {
+						return // infeasible edge
+					}
 				}
 				if !reached[t] {
-					reached[t], entry[t] = true, v
+					cp := ivals{}
+					for r, x := range v {
+						cp[r] = x
+					}
+					reached[t], entry[t] = true, cp
 					changed = true
 					return
 				}
-				if h := hull(entry[t], v); h != entry[t] {
-					entry[t] = h
-					changed = true
+				for _, r := range regs {
+					if h := hull(entry[t][r], v[r]); h != entry[t][r] {
+						entry[t][r] = h
+						changed = true
+					}
 				}
+			}
+			with := func(base ivals, r string, v ival) ivals {
+				cp := ivals{}
+				for k, x := range base {
+					cp[k] = x
+				}
+				cp[r] = v
+				return cp
 			}
 			switch {
 			case sm.ret:
@@ -438,9 +512,9 @@ func checkKernel(w *load.World, c *core.Collector, f *asmFunc, props []string) {
 				push(sm.target, out)
 			case sm.jop != "":
 				if sm.hasCmp {
-					if tk, fl, ok := refine(out, sm.jop, sm.cmpK); ok {
-						push(sm.target, tk)
-						push(bi+1, fl)
+					if tk, fl, ok := refine(out[sm.cmpReg], sm.jop, sm.cmpK); ok {
+						push(sm.target, with(out, sm.cmpReg, tk))
+						push(bi+1, with(out, sm.cmpReg, fl))
 						break
 					}
 				}
@@ -481,7 +555,16 @@ func checkKernel(w *load.World, c *core.Collector, f *asmFunc, props []string) {
 			continue
 		}
 		sm := sums[bi]
-		touches := len(sm.loadsX)+len(sm.loadsY) > 0 || sm.dx != 0 || sm.dy != 0 || sm.dc != 0
+		var dcTotal, avail int64 // floats the block takes; floats known to remain at its entry
+		overdraw := ""
+		for _, r := range regs {
+			dcTotal += wts[r] * sm.dcs[r]
+			avail += wts[r] * entry[bi][r].lo
+			if sm.dcs[r] > entry[bi][r].lo {
+				overdraw = fmt.Sprintf("the block takes %d off %s but the branches leading here only establish that it is at least %d", sm.dcs[r], r, entry[bi][r].lo)
+			}
+		}
+		touches := len(sm.loadsX)+len(sm.loadsY) > 0 || sm.dx != 0 || sm.dy != 0 || dcTotal != 0
 		if _, seen := nameLine[b.name]; !seen {
 			nameLine[b.name] = b.start
 			order = append(order, b.name)
@@ -490,23 +573,27 @@ func checkKernel(w *load.World, c *core.Collector, f *asmFunc, props []string) {
 		if sm.bad != "" {
 			byName[b.name] = append(byName[b.name], sm.bad)
 		}
-		if sm.ret && !(entry[bi].lo == 0 && entry[bi].hi == 0) {
-			byName[b.name] = append(byName[b.name], fmt.Sprintf("the function can return with elements left (count in [%d,%s] at RET)", entry[bi].lo, map[bool]string{true: "unbounded", false: fmt.Sprint(entry[bi].hi)}[entry[bi].hi >= inf]))
+		if sm.ret {
+			for _, r := range regs {
+				if e := entry[bi][r]; !(e.lo == 0 && e.hi == 0) {
+					byName[b.name] = append(byName[b.name], fmt.Sprintf("the function can return with elements left (%s in [%d,%s] at RET)", r, e.lo, map[bool]string{true: "unbounded", false: fmt.Sprint(e.hi)}[e.hi >= inf]))
+				}
+			}
 		}
 		if !touches {
 			continue
 		}
 		nLoops++
-		lo := entry[bi].lo
+		lo := avail
 		var probs []string
 		if sm.dx != sm.dy {
 			probs = append(probs, fmt.Sprintf("x advances by %d bytes, y by %d", sm.dx, sm.dy))
 		}
-		if sm.dc <= 0 || sm.dx != 4*sm.dc {
-			probs = append(probs, fmt.Sprintf("pointers advance by %d bytes while the count drops by %d floats", sm.dx, sm.dc))
+		if dcTotal <= 0 || sm.dx != 4*dcTotal {
+			probs = append(probs, fmt.Sprintf("pointers advance by %d bytes while the count drops by %d floats", sm.dx, dcTotal))
 		}
-		if sm.dc > lo {
-			probs = append(probs, fmt.Sprintf("the block consumes %d floats but the branches leading here only establish that at least %d remain", sm.dc, lo))
+		if overdraw != "" {
+			probs = append(probs, overdraw)
 		}
 		for o, wd := range sm.loadsX {
 			if o < 0 || (o+wd) > 4*lo {
@@ -538,7 +625,13 @@ func checkKernel(w *load.World, c *core.Collector, f *asmFunc, props []string) {
 		for bi, b := range blocks {
 			if b.name == name && reached[bi] {
 				sm := sums[bi]
-				if len(sm.loadsX)+len(sm.loadsY) > 0 || sm.dc != 0 || sm.ret {
+				nz := false
+				for _, d := range sm.dcs {
+					if d != 0 {
+						nz = true
+					}
+				}
+				if len(sm.loadsX)+len(sm.loadsY) > 0 || nz || sm.ret {
 					hasWork = true
 				}
 			}
